@@ -275,6 +275,10 @@ class World:
         self.nullable_params = {}   # (fname, i) -> src
         self.nullable_rets = {f: ('ret', 'the result of %s() may be NULL' % f) for f in LIBC_NULLABLE_RET}
         self.mustderef = {}         # (fname, i) -> True
+        self.mustnn = {}            # (fname, i) -> 'Record.field': the function stores its i-th parameter, unconditionally, into a pointer field that is not in the nullable
+                                    #   table (so every reader takes it for non-null), or hands it on to such a parameter (transitive)
+        self.establishes = {}       # (fname, i) -> frozenset of ('->field', 'Record.field') (fields of the nullable table): on every normal return the function has assigned the field
+                                    #   of what its i-th parameter points to, or the owner has a kind for which the field is not optional (derived from the return states)
         for f, idx in LIBC_MUSTDEREF.items():
             for i in idx:
                 self.mustderef[(f, i)] = True
@@ -554,6 +558,8 @@ class Engine:
         self.derefs = {}      # (node id, how) -> dict
         self.mustderef = set()
         self.null_args = {}   # (callee, i) -> src
+        self.muststore = {}   # parameter index -> 'Record.field' it is stored into unconditionally (field assumed non-null by every reader)
+        self.nnsinks = {}     # (node id, how) -> dict: a may-be-NULL value of a nullable *field* stored into such a field / handed to such a parameter
         self.returns = []     # (nul, src, rk)
         self.stores = []      # (record, field, vs-of-kind or None, node)
         self.reads = []       # (node, record, field, kind vs, base path)
@@ -825,6 +831,8 @@ class Engine:
                     kf = S.vs.get(base_for_kind + '->' + imp[0])
                     if kf and kf[0] == 'in' and kf[1] <= imp[1]:
                         # type invariant: the field is set for these kinds
+                        if fact is not None and fact[0] == 'NULL':
+                            return None     # this path has seen the field NULL and the owner of such a kind: excluded by the invariant
                         v.nul, v.src = 'NN', ('field', '%s.%s' % (rec, f), '')
                         return v
             if fact is not None:
@@ -843,6 +851,8 @@ class Engine:
             if arrow:
                 self.check_deref(s, bv, e, '->' + (e.name or '?'))
             v = self.member_val(s, e, bv)
+            if v is None:
+                continue
             self.note_read(s, e, bv, v)
             if arrow and self.W.end_marker:
                 self.note_link(s, e, bv)
@@ -1095,6 +1105,9 @@ class Engine:
                         self.note_store(s2, a, p)
                         self.alias_store(s2, p)
                     self.note_fstore(s2, a, v, e, p)
+                    nf = self.nn_field(a)
+                    if nf is not None:
+                        self.note_sink(s2, v, e, 'store', nf)
                     out.append((s2, Val(path=p, nul=v.nul, src=v.src, const=v.const, ename=v.ename, vs=v.vs)))
             return out
         if op == ',':
@@ -1385,6 +1398,77 @@ class Engine:
             return (self.param_idx[pid], path[len(r):])
         return None
 
+    def nn_field(self, lhs):
+        """'Record.field' if lhs is a pointer field of a record that is not in the nullable table (readers take it for non-null)"""
+        e = lhs
+        while e.kind in TRANSPARENT:
+            e = e.inner[0]
+        if e.kind != 'MemberExpr' or not is_ptr_type(e.type):
+            return None
+        bt = e.inner[0].type or ''
+        rec = rec_of(pointee(bt) if e.d.get('isArrow') else bt)
+        if rec is None or (rec, e.name) in self.W.nullable_fields:
+            return None
+        return '%s.%s' % (rec, e.name)
+
+    def note_sink(self, S, v, node, how, field):
+        """v is stored where every reader assumes a non-null pointer (a field outside the nullable table, directly or through a constructor's parameter)"""
+        if v is None:
+            return
+        if v.path is not None and not any(c in v.path for c in '-.['):
+            root = v.path
+            if '@' in root and root.split('@', 1)[1] in self.param_idx and root not in self.assigned_params and self.depth == 0 and not self.exited \
+                    and S.nul.get(root) is None:
+                self.muststore.setdefault(self.param_idx[root.split('@', 1)[1]], field)
+        if v.src is not None and v.src[0] == 'field' and (v.nul in ('N', 'NULL') or v.nul == 'NN'):
+            ent = self.W.nullable_fields.get(tuple(v.src[1].split('.', 1)))
+            if ent is None or ent.get('implied'):
+                return      # nullability tied to a kind invariant of the owner that may hold unseen here: judged at dereferences only
+            key = (node.id, how)
+            bad = v.nul in ('N', 'NULL')
+            rec = self.nnsinks.get(key)
+            if rec is None or (bad and not rec['bad']):
+                # what receives the object that now holds the value (tells apart two such uses in one function): the call the constructor call is an argument of
+                user = None
+                call = node.enclosing('CallExpr') if how != 'store' else None
+                outer = call.enclosing('CallExpr') if call is not None else None
+                if outer is not None:
+                    user = outer.callee()
+                self.nnsinks[key] = {'node': node, 'how': how, 'bad': bad, 'src': v.src, 'path': v.path, 'ctx': self.context(S), 'expr': node.src(), 'field': field, 'user': user}
+
+    def established(self):
+        """{parameter index: frozenset of '->field'}: nullable-table fields of what the parameter points to that are assigned (or not optional for the owner's kind) on every normal return"""
+        out = {}
+        if not self.ret_facts:
+            return out
+        for i, p in enumerate(self.params):
+            r = '%s@%s' % (p.name, p.id)
+            rec = rec_of(p.type)
+            if rec is None or not is_ptr_type(p.type) or r in self.assigned_params:
+                continue
+            sufs = set()
+            for (rc, f), e in self.W.nullable_fields.items():
+                if rc != rec:
+                    continue
+                ow = e.get('only_when')
+                q = r + '->' + f
+                good = True
+                for c, S in self.ret_facts:
+                    fact = S.nul.get(q)
+                    if fact is not None and fact[0] in ('NN', 'U'):
+                        continue
+                    if ow:
+                        kf = S.vs.get(r + '->' + ow[0])
+                        if kf is not None and ((kf[0] == 'in' and not (kf[1] & ow[1])) or (kf[0] == 'notin' and ow[1] <= kf[1])):
+                            continue
+                    good = False
+                    break
+                if good and any((S.nul.get(q) or ('',))[0] in ('NN', 'U') for c, S in self.ret_facts):
+                    sufs.add(('->' + f, '%s.%s' % (rc, f)))
+            if sufs:
+                out[i] = frozenset(sufs)
+        return out
+
     def note_fstore(self, S, lhs, v, node, p=None):
         """store of an integer value into a record field (for the rule on fields that are used as divisors; flags set at construction)"""
         e = lhs
@@ -1572,6 +1656,8 @@ class Engine:
                     self.null_args[(c, i)] = v.src or ('arg', 'NULL is passed by %s()' % self.fname)
             if self.W.mustderef.get((c, i)):
                 self.check_deref(s, v, args[i], 'arg%d of %s()' % (i + 1, c))
+            if self.W.mustnn.get((c, i)) and self.W.resolve(self.u, c) is not None:
+                self.note_sink(s, v, args[i], 'arg%d of %s()' % (i + 1, c), self.W.mustnn[(c, i)])
             if self.W.mustdiv.get((c, i)) and self.W.resolve(self.u, c) is not None:
                 self.note_div(s, args[i], 'arg%d of %s()' % (i + 1, c), None, v, args[i])
             if v.src is not None and v.src[0] in ZSRC and (c, i) not in self.zero_args and not is_ptr_type(args[i].type) and self.zclass(s, v) == 'z':
@@ -1602,6 +1688,12 @@ class Engine:
                 s.nul[v.path + '[]'] = ('U', None)
         for g in self.W.gwrites.get(c, ()):
             s.kill('G:' + g)
+        if self.W.resolve(self.u, c) is not None:
+            for i, v in enumerate(vals):
+                est = self.W.establishes.get((c, i))
+                if est and v.path is not None:
+                    for suf, fld in est:
+                        s.nul[v.path + suf] = ('NN', ('field', fld, 'assigned by %s()' % c))
         r = Val()
         src = self.W.nullable_rets.get(c)
         if src is not None and is_ptr_type(e.type):
@@ -2464,6 +2556,20 @@ def solve(W, max_rounds=12):
                     if not W.mustderef.get((f, i)):
                         W.mustderef[(f, i)] = True
                         touched.add(f)
+                if len(W.fn_unit.get(f, ())) == 1:
+                    for i, fld in eng.muststore.items():
+                        if (f, i) not in W.mustnn:
+                            W.mustnn[(f, i)] = fld
+                            touched.add(f)
+                    est = eng.established()
+                    for i in set(est) | set(k[1] for k in W.establishes if k[0] == f):
+                        if W.establishes.get((f, i)) != est.get(i):
+                            if i in est:
+                                W.establishes[(f, i)] = est[i]
+                            else:
+                                del W.establishes[(f, i)]
+                            touched.add(f)
+                            touched.add('=' + f)
                 for (c, i), src in eng.null_args.items():
                     if c not in W.fn_unit:
                         continue
